@@ -415,6 +415,91 @@ func caseTimer() {
 	out.Case(true, fields...)
 }
 
+// runUploader: the uploader through its real entry point (mode local: no
+// configuration is fetched), so that whatever newUploader does to the start
+// time is part of what is observed.
+func runUploader(dir string, start time.Time) {
+	upload.Run(upload.RunConfig{TelemetryDir: dir, UploadURL: "http://127.0.0.1:1/", StartTime: start})
+}
+
+// rotfail: the rotation at a week boundary FAILS once (the next file's name is
+// occupied by a directory), the obstacle goes away, the process goes on
+// incrementing and rotating (what its timer does) through the following weeks.
+// Whatever the process does with the increments it cannot persist, none of them
+// may be counted in a file of another span than the one it was made in.
+func caseRotateFail() {
+	now0 := genNow()
+	if now0.Year() > 9000 {
+		now0 = now0.AddDate(-100, 0, 0)
+	}
+	wd := rnd.Intn(7)
+	dir := setupDir([]byte(fmt.Sprintf("%d\n", wd)), false)
+	defer os.RemoveAll(dir)
+	now := now0
+	counter.CounterTime = func() time.Time { return now }
+	f := counter.VerifNewFile()
+	f.Rotate1()
+	_, e0 := f.Span()
+	c := f.NewCounter("c")
+	type inc struct {
+		t time.Time
+		n int
+	}
+	var incs []inc
+	add := func() {
+		n := 1 + rnd.Intn(5)
+		c.Add(int64(n))
+		incs = append(incs, inc{now, n})
+	}
+	add()
+	name0 := f.CurrentName()
+	d0 := now0.UTC().Format("2006-01-02")
+	if !strings.Contains(name0, d0) {
+		return
+	}
+	// the recorded end is reached; the next file cannot be created
+	now = e0.Add(time.Duration(rnd.Intn(3600)) * time.Second)
+	obstacle := strings.Replace(name0, d0, now.UTC().Format("2006-01-02"), 1)
+	os.MkdirAll(filepath.Join(obstacle, "x"), 0777)
+	f.Rotate1()
+	os.RemoveAll(obstacle)
+	add()
+	// retries during that week, as the rotation timer would make them
+	for k := 0; k < 1+rnd.Intn(3); k++ {
+		now = now.Add(time.Duration(1+rnd.Intn(40)) * time.Hour)
+		f.Rotate1()
+		add()
+	}
+	// the following week boundary, and one more
+	for k := 0; k < 2; k++ {
+		_, e := f.Span()
+		if !e.After(now) {
+			e = now.Add(7 * 24 * time.Hour)
+		}
+		now = e.Add(time.Duration(rnd.Intn(3600)) * time.Second)
+		f.Rotate1()
+		add()
+	}
+	f.Close()
+	got := counts(telemetry.Default.LocalDir())
+	keys := make([]string, 0, len(got))
+	for k := range got {
+		keys = append(keys, k)
+	}
+	sort.Strings(keys)
+	fields := []string{"rotfail", I(int64(wd)), I(int64(len(incs)))}
+	for _, i := range incs {
+		fields = append(fields, I(i.t.Unix()), I(int64(i.n)))
+	}
+	fields = append(fields, I(int64(len(keys))))
+	for _, k := range keys {
+		p := strings.SplitN(k, "|", 2)
+		fields = append(fields, HS(p[0]), HS(p[1]), U(got[k]))
+	}
+	out.Note("rotation-fails-once")
+	out.Case(true, fields...)
+}
+
 // upload: a real counter file, then the real uploader (mode local) with a
 // start time relative to the end instant.
 func caseUpload() {
@@ -440,8 +525,7 @@ func caseUpload() {
 		f0.NewCounter("c").Add(1)
 		name0 := f0.CurrentName()
 		f0.Close()
-		u0 := upload.VerifNewUploader(dir, "http://127.0.0.1:1/", now, nil, "v0.0.0-0", nil)
-		u0.Run()
+		runUploader(dir, now)
 		_, statErr := os.Stat(name0)
 		out.Note("upload-earlier-life-of-the-name")
 		out.Case(true, "upload", I(now.Unix()), I(int64(wd0)), I(e0.Unix()), I(now.Unix()), I(int64(now.Nanosecond())),
@@ -476,8 +560,7 @@ func caseUpload() {
 		start = start.In(time.FixedZone("z", off*3600+Pick(rnd, []int{0, 1800})))
 		out.Note("upload-start-in-other-zone")
 	}
-	u := upload.VerifNewUploader(dir, "http://127.0.0.1:1/", start, nil, "v0.0.0-0", nil)
-	u.Run()
+	runUploader(dir, start)
 	_, statErr := os.Stat(name)
 	consumed := statErr != nil
 	week := ""
@@ -551,8 +634,7 @@ func caseUploadMulti() {
 		return
 	}
 	start := lastEnd.Add(Pick(rnd, []time.Duration{time.Nanosecond, time.Second, time.Hour, 40 * time.Hour, 0, -time.Second, -8 * 24 * time.Hour}))
-	u := upload.VerifNewUploader(dir, "http://127.0.0.1:1/", start, nil, "v0.0.0-0", nil)
-	u.Run()
+	runUploader(dir, start)
 	fields := []string{"uploadmulti", I(start.Unix()), I(int64(start.Nanosecond())), I(int64(len(files)))}
 	for _, c := range files {
 		_, statErr := os.Stat(c.name)
@@ -613,6 +695,8 @@ func main() {
 			caseTimer()
 		case i%25 == 12:
 			caseUploadMulti()
+		case i%25 == 6:
+			caseRotateFail()
 		case i%10 < 4:
 			caseSpan()
 		case i%10 < 5:
